@@ -6,6 +6,7 @@ import (
 	"bytes"
 	"fmt"
 	"math/rand"
+	"sync/atomic"
 
 	"github.com/cuteLittleDevil/go-jt808/protocol/jt808"
 	"github.com/cuteLittleDevil/go-jt808/shared/consts"
@@ -60,7 +61,11 @@ func decodeView(f []byte) (DecView, *jt808.JTMessage) {
 		err error
 	)
 	in := exact(f)
-	if p := protect(func() { err = m.Decode(in) }); p != "" {
+	p := protect(func() { err = m.Decode(in) })
+	if !bytes.Equal(in, f) { // the frame belongs to the caller (it may decode it again, log it, forward it)
+		inputChanged.Store(true)
+	}
+	if p != "" {
 		return DecView{Panic: p}, nil
 	}
 	if err != nil {
@@ -68,6 +73,9 @@ func decodeView(f []byte) (DecView, *jt808.JTMessage) {
 	}
 	return viewOf(m), m
 }
+
+// inputChanged: set when a Decode call modified the bytes it was given; read and reset by the replay loops
+var inputChanged atomic.Bool
 
 type c01Case struct {
 	Src  B   `json:"src"`
@@ -127,6 +135,10 @@ func init() {
 			n++
 			got, sv, p := encodeLikeUser(c.Src, c.ID, c.Pser, c.Body)
 			cls := fmt.Sprintf("ver=%d frag=%d len%s", sv.Ver, sv.Frag, lenClass(len(c.Body)))
+			// (the encoded reply is decoded once here: decoding does not change the frame - it can be decoded, logged or sent again)
+			if decodeView(got); inputChanged.Swap(false) {
+				out.put(mismatch{"decode-changed-the-frame-it-was-given " + cls, fmt.Sprintf("source %x reply %x", []byte(c.Src), got), c})
+			}
 			classes[cls]++
 			// the same through one long-lived JTMessage that decodes every source frame and encodes every reply in turn:
 			// what it decoded or encoded before must not show
@@ -392,6 +404,9 @@ func init() {
 			}
 			n++
 			got, gm := decodeView(c.F)
+			if inputChanged.Swap(false) {
+				out.put(mismatch{"decode-changed-the-frame-it-was-given " + c.Kind, fmt.Sprintf("%x", []byte(c.F)), c})
+			}
 			cls := c.Kind + map[bool]string{true: " accepted", false: " rejected"}[c.D.Ok]
 			// the same frame through one long-lived JTMessage that has decoded every earlier frame and encoded a reply after each
 			{
